@@ -1,7 +1,7 @@
 (* C04 -- property theorems only. `_refuted` theorems are facts about the faithful model of the CURRENT code
    (the correspondence check replays their witnesses on the implementation); see known_findings.json. *)
 From Coq Require Import ZArith List Bool.
-From WNTRV Require Import Lib.Sched C04.Proofs C04.AtTime.
+From WNTRV Require Import Lib.Sched C04.Proofs C04.AtTime C04.RuleGe.
 Import ListNotations.
 Local Open Scope Z_scope.
 
@@ -79,6 +79,17 @@ Proof. intros. apply at_time_silent_otherwise; assumption. Qed.
 Theorem C04_clock_control_daily_refuted :
   first_closed (run (mk [{| c_cond := CClock Req 21600 true 0; c_prio := 3; c_act := (0%nat, false) |}] [])) = Some 43200.
 Proof. vm_compute. reflexivity. Qed.
+(* a rule IF SYSTEM TIME >= thr (thr > 0), for EVERY threshold, grid and duration: it acts at J * rule_step, the first multiple of the
+   rule step that is >= thr (J = ceil(thr / rule_step)); a step is solved there -- also inside a hydraulic step --, nothing changes before
+   and the value is kept after *)
+Theorem C04_rule_ge_acts_at_first_instant : forall thr hs rs sc D l v st0 p, 0 < rs -> 0 < hs -> D mod hs = 0 -> 0 < thr ->
+  J thr rs * rs <= D -> (l < length st0)%nat -> nth l st0 v <> v ->
+  exists f tr s, steps f (g2 thr hs rs sc D l v st0 p) D (init_state (g2 thr hs rs sc D l v st0 p)) = Some (tr, s) /\
+    In (J thr rs * rs, set_nth st0 l v) tr /\
+    (forall e, In e tr -> (fst e < J thr rs * rs -> snd e = st0) /\ (J thr rs * rs <= fst e -> snd e = set_nth st0 l v)).
+Proof. intros. apply rule_ge_acts_at_first_instant; assumption. Qed.
+Theorem C04_rule_first_instant_spec : forall thr rs, 0 < rs -> (J thr rs - 1) * rs < thr <= J thr rs * rs.
+Proof. intros. apply J_spec; assumption. Qed.
 (* a rule is evaluated at t = 0, before the first hydraulic solution *)
 Theorem C04_rules_on_positive_grid_refuted :
   first_closed (run (mk [] [{| r_cond := CSim Rge 0 0; r_prio := 3; r_then := [(0%nat, false)]; r_else := [] |}])) = Some 0.
@@ -89,6 +100,7 @@ Print Assumptions C04_simtime_le_exact_partial.
 Print Assumptions C04_clock_eq_daily_refuted.
 Print Assumptions C04_last_applied_wins.
 Print Assumptions C04_at_time_control_exact.
+Print Assumptions C04_rule_ge_acts_at_first_instant.
 Print Assumptions C04_at_time_fires_exactly.
 Print Assumptions C04_at_time_silent_otherwise.
 Print Assumptions C04_clock_control_daily_refuted.
